@@ -93,14 +93,15 @@ func init() {
 		Title: "Privileged changes need governance; messages touch only the signer's assets",
 		Funcs: fcNP("x/oracle/keeper.msgServer.UpdateParams", "x/oracle/keeper.msgServer.UpdateCyclelist", "x/registry/keeper.msgServer.UpdateDataSpec",
 			"x/registry/keeper.msgServer.RegisterSpec", "x/reporter/keeper.msgServer.UpdateParams", "x/bridge/keeper.msgServer.UpdateSnapshotLimit",
-			"x/dispute/keeper.msgServer.UpdateTeam", "x/mint/keeper.msgServer.Init", "x/oracle/keeper.msgServer.Tip", "x/bridge/keeper.msgServer.WithdrawTokens", "x/reporter/keeper.Keeper.HasMin"),
+			"x/dispute/keeper.msgServer.UpdateTeam", "x/mint/keeper.msgServer.Init", "x/oracle/keeper.msgServer.Tip", "x/bridge/keeper.msgServer.WithdrawTokens", "x/reporter/keeper.Keeper.HasMin",
+			"x/dispute/keeper.Keeper.PayDisputeFee", "x/dispute/keeper.msgServer.ProposeDispute", "x/dispute/keeper.msgServer.AddFeeToDispute", "x/dispute/keeper.msgServer.Vote"),
 		Assumptions: []string{
 			"k.authority is the governance module address (set in app.go when the keepers are constructed)",
 			"bech32 decoding is modelled abstractly: AccAddressFromBech32(s) yields the account addr_str(s)",
 			"calls without specification (collections Walk/Clear, hooks, abi decoding) are havocked: results, memory reachable from their arguments, the store they operate on and everything their callbacks can write",
 		},
 		NotDecided: []string{
-			"the signer-only frame for the remaining message types (reporter, dispute, bridge handlers): only MsgTip and MsgWithdrawTokens are proved so far",
+			"the signer-only frame for the remaining message types (reporter handlers, bridge claim/attestation requests, dispute refunds and reward claims): proved so far are MsgTip, MsgWithdrawTokens, MsgProposeDispute and MsgAddFeeToDispute (only the signer, the staking pools and the dispute escrow change balance; the escrowed stake belongs to the disputed reporter's backers by design) and MsgVote (writes dispute state only)",
 			"SDK message types (bank send, staking) are not layer code",
 		},
 	})
@@ -157,14 +158,16 @@ func init() {
 	reg(&PropDef{
 		ID:    "C10",
 		Title: "Reporting power equals the bonded stake of active selectors, counted once",
-		Funcs: fcNP("x/reporter/keeper.Keeper.HasMin", "x/reporter/keeper.Keeper.ReporterStake", "x/reporter/keeper.msgServer.SwitchReporter", "x/reporter/keeper.msgServer.CreateReporter"),
+		Funcs: append(fcNP("x/reporter/keeper.Keeper.HasMin", "x/reporter/keeper.Keeper.ReporterStake", "x/reporter/keeper.msgServer.SwitchReporter", "x/reporter/keeper.msgServer.CreateReporter",
+			"x/reporter/keeper.Keeper.JailReporter", "x/reporter/keeper.Keeper.UnjailReporter", "x/reporter/keeper.msgServer.UnjailReporter"),
+			fc("x/reporter/keeper.msgServer.SelectReporter")...),
 		Assumptions: []string{
 			"staking state as ghost: delegation(a,j)/ndelegations(a) is the sequence IterateDelegatorDelegations visits, staking.validators the validator store; Validator.TokensFromShares = shares*Tokens/DelegatorShares with banker's rounding (cosmos-sdk v0.50.9)",
 			"the minimum passed to HasMin is positive",
 		},
 		NotDecided: []string{
 			"ReporterStake is under contract for: jailed/unknown reporters rejected, the stored record's Total equals the returned stake and the listed backers sum to it, both delegation walks run to their end (a walk stopped without error is a violation), nothing else written. That the amount equals the bonded stake of exactly the unlocked selectors (equality of the two counting paths, lock filter) is not decided: the over-cap path reads the staking module through ValidatorI/GetDelegation, which are unconstrained reads here",
-			"selector cap, one reporter per selector, un-jailing, delegation counters maintained by hooks: not under contract",
+			"the selector cap as a state invariant (decided per handler: SelectReporter and SwitchReporter admit a selector only while the reporter has fewer selectors than the cap -- matchcount over the by-reporter index --, a selector record exists at most once per address, un-jailing only after the jail time); CreateReporter's own selection, RemoveSelector and the delegation counters maintained by staking hooks are not under contract",
 			"the same token never counts for two reporters within one window (history property)",
 		},
 	})
